@@ -1,50 +1,80 @@
 #!/bin/bash
 # ./seedrun.sh <seed-dir-id> <module(client|server)> <pkg-dir-rel-to-module> <demo-file> <run-regex> <check-ids...>
-# Confirms a seeded change in its scratch worktree (existing tests pass, demo fails with /
-# passes without the change), stores it under /verif/seeded/<id>/ and runs the named checks
-# against it (apply to /repo, run, undo).
+# Confirms a seeded change in its scratch worktree /tmp/seed-<id> (existing tests pass, demo
+# fails with / passes without the change), stores it under /verif/seeded/<id>/ and runs the
+# named checks against it: the change is applied to /repo only while the worker binaries are
+# built (under the exclusive /repo build lock), undone straight afterwards; the checks then
+# run from those binaries and write their evidence / replays to a scratch directory, never to
+# /verif/evidence.
+# With VERIF_SEED_ONLY_CHECKS=1 the confirmation part is skipped (re-run of a stored seed).
 set -u
 export GOFLAGS=-mod=mod GOPROXY=off GOSUMDB=off GOTOOLCHAIN=local
 ID="$1"; MOD="$2"; PKG="$3"; DEMO="$4"; RX="$5"; shift 5
 W=/tmp/seed-$ID
 OUT=/verif/seeded/$ID
-mkdir -p "$OUT"
-cp "$W"/OUT/* "$OUT"/ 2>/dev/null
-cd "$W" || exit 2
-git checkout -q -- . ; git clean -fdq -e OUT
-git apply OUT/patch.diff || { echo "patch does not apply in its own worktree"; exit 2; }
-res_tests=$(cd client && go test -vet=off -count=1 ./pkg/... 2>&1 | grep -c "^ok")
-res_build=$( (cd server && go build ./... ) >/dev/null 2>&1 && echo ok || echo FAIL)
-cp "OUT/$DEMO" "$MOD/$PKG/"
-with=$( (cd $MOD && go test -vet=off -count=1 -run "$RX" ./$PKG/ ) 2>&1 | tail -1 | cut -c1-80)
-git apply -R OUT/patch.diff
-without=$( (cd $MOD && go test -vet=off -count=1 -run "$RX" ./$PKG/ ) 2>&1 | tail -1 | cut -c1-80)
-rm -f "$MOD/$PKG/$DEMO"
-git checkout -q -- . ; git clean -fdq -e OUT
-echo "[$ID] client tests ok packages: $res_tests/6, server build: $res_build"
-echo "[$ID] demo with change   : $with"
-echo "[$ID] demo without change: $without"
-# against /repo
-cd /repo || exit 2
-if [ -n "$(git status --porcelain)" ]; then echo "/repo not clean"; exit 2; fi
-if ! git apply --check "$OUT/patch.diff" 2>/dev/null; then echo "[$ID] patch does not apply to /repo HEAD"; applies=no; else applies=yes; fi
+TIER="${VERIF_SEED_TIER:-quick}"
+SCR=/var/tmp/verif-seedrun/$ID
+LOCK=/var/tmp/verif-repo.lock
+mkdir -p "$OUT" "$SCR"
+res_tests=-; res_build=-; with=-; without=-
+if [ -z "${VERIF_SEED_ONLY_CHECKS:-}" ]; then
+  cp "$W"/OUT/* "$OUT"/ 2>/dev/null
+  cd "$W" || exit 2
+  git checkout -q -- . ; git clean -fdq -e OUT
+  git apply OUT/patch.diff || { echo "patch does not apply in its own worktree"; exit 2; }
+  res_tests=$(cd client && go test -vet=off -count=1 ./pkg/... 2>&1 | grep -c "^ok")
+  res_build=$( (cd server && go build ./... ) >/dev/null 2>&1 && echo ok || echo FAIL)
+  cp "OUT/$DEMO" "$MOD/$PKG/"
+  with=$( (cd $MOD && go test -vet=off -count=1 -run "$RX" ./$PKG/ ) 2>&1 | tail -1 | cut -c1-80)
+  git apply -R OUT/patch.diff
+  without=$( (cd $MOD && go test -vet=off -count=1 -run "$RX" ./$PKG/ ) 2>&1 | tail -1 | cut -c1-80)
+  rm -f "$MOD/$PKG/$DEMO"
+  git checkout -q -- . ; git clean -fdq -e OUT
+  echo "[$ID] client tests ok packages: $res_tests/6, server build: $res_build"
+  echo "[$ID] demo with change   : $with"
+  echo "[$ID] demo without change: $without"
+fi
+# build the workers from /repo + change
+PATCH="$OUT/patch.diff"
+[ -f "$OUT/patch-rebased.diff" ] && PATCH="$OUT/patch-rebased.diff"
 results=""
-if [ "$applies" = yes ]; then
+built=no
+(
+  flock -x 9
+  cd /repo || exit 2
+  if [ -n "$(git status --porcelain)" ]; then echo "/repo not clean"; exit 2; fi
+  if ! git apply --check "$PATCH" 2>/dev/null; then echo "[$ID] patch does not apply to /repo HEAD"; exit 3; fi
+  git apply "$PATCH"
+  rc=0
   for chk in "$@"; do
-    git apply "$OUT/patch.diff"
-    (cd /verif && ./check $chk quick > /tmp/seedrun.$$.out 2>&1); rc=$?
-    git checkout -q -- . ; git clean -fdq
-    sigs=$(grep "signature-tally" /tmp/seedrun.$$.out | head -4 | sed 's/ *signature-tally: *//' | tr '\n' ';' | cut -c1-300)
-    echo "[$ID] check $chk quick -> exit $rc  $sigs"
+    (cd /verif && VERIF_REPO_LOCKED=1 VERIF_BIN_DIR="$SCR/bin" ./check $chk --build-only) || rc=4
+  done
+  git checkout -q -- . ; git clean -fdq
+  exit $rc
+) 9>"$LOCK"
+brc=$?
+if [ $brc -eq 0 ]; then
+  for chk in "$@"; do
+    (cd /verif && VERIF_SKIP_BUILD=1 VERIF_BIN_DIR="$SCR/bin" VERIF_OUT_DIR="$SCR" ./check $chk $TIER > "$SCR/$chk.out" 2>&1); rc=$?
+    sigs=$(grep "signature-tally" "$SCR/$chk.out" | head -4 | sed 's/ *signature-tally: *//' | tr '\n' ';' | cut -c1-300)
+    echo "[$ID] check $chk $TIER -> exit $rc  $sigs"
     results="$results $chk=$rc"
   done
+else
+  echo "[$ID] build with the change failed (rc=$brc)"; results="build-failed"
 fi
-rm -f /tmp/seedrun.$$.out
+rm -rf "$SCR/bin" "$SCR/work"
 python3 - "$OUT/meta.json" "$res_tests" "$res_build" "$with" "$without" "$results" <<'PY'
 import json,sys
 p=sys.argv[1]
 try: m=json.load(open(p))
 except Exception: m={}
-m['confirmed_by_verif']={'client_test_packages_ok':sys.argv[2],'server_build':sys.argv[3],'demo_with_change':sys.argv[4],'demo_without_change':sys.argv[5],'checks_quick_exit_codes':sys.argv[6].strip()}
+c=m.get('confirmed_by_verif',{})
+if sys.argv[2]!='-':
+    c.update({'client_test_packages_ok':sys.argv[2],'server_build':sys.argv[3],'demo_with_change':sys.argv[4],'demo_without_change':sys.argv[5]})
+old=dict(x.split('=') for x in c.get('checks_quick_exit_codes','').split() if '=' in x)
+old.update(dict(x.split('=') for x in sys.argv[6].split() if '=' in x))
+c['checks_quick_exit_codes']=' '.join('%s=%s'%kv for kv in sorted(old.items()))
+m['confirmed_by_verif']=c
 json.dump(m,open(p,'w'),indent=1)
 PY
